@@ -95,7 +95,7 @@ def run(ctx: Ctx) -> int:
         p = _P(r.out)
         p.i = m.start()
         v = p.value()
-        uids.append((list(v[1]), v[2], v[3]))
+        uids.append((list(v[1]), v[2], v[3], v[4]))
     if len(uids) < 200:
         raise MachineryError(f"only {len(uids)} UID values exported")
     logger = logging.getLogger("verif.c30")
@@ -107,11 +107,11 @@ def run(ctx: Ctx) -> int:
         if ctx.tier != "thorough":      # all values in the SOP Instance UID; a seeded sample of the hostile ones in the other attributes
             import random
             rng = random.Random(ctx.seed + 30)
-            main = [u for u in uids if u[1] == "SOPInstanceUID" and u[2] == "prefixed"]
-            rest = [u for u in uids if not (u[1] == "SOPInstanceUID" and u[2] == "prefixed")]
+            main = [u for u in uids if u[1] == "SOPInstanceUID" and (u[2] == "prefixed" or u[3] == "elsewhere")]
+            rest = [u for u in uids if not (u[1] == "SOPInstanceUID" and (u[2] == "prefixed" or u[3] == "elsewhere"))]
             uids = main + rng.sample(rest, min(len(rest), 900))
-        for toks, field, sopk in uids:
-            for app in ("qrscp", "storescp"):
+        for toks, field, sopk, known in uids:
+            for app in (("qrscp", "storescp") if known == "new" else ("qrscp",)):
                 root = os.path.join(base, "r")
                 shutil.rmtree(root, ignore_errors=True)
                 store = os.path.join(root, *NEST)
@@ -131,6 +131,20 @@ def run(ctx: Ctx) -> int:
                     if app == "qrscp":
                         db_path = f"sqlite:///{dbfile}"
                         engine = qrdb.create(db_path)
+                        if known == "elsewhere":
+                            # the database already manages this instance; its file is recorded in another directory
+                            from sqlalchemy.orm import sessionmaker
+                            managed = os.path.join(root, "outside", "managed.dcm")
+                            with open(managed, "w") as f:
+                                f.write("managed elsewhere")
+                            session = sessionmaker(bind=engine)()
+                            try:
+                                qrdb.add_instance(ev.dataset, session, managed)
+                            except Exception:  # noqa: BLE001   the database cannot hold this value at all: the pre-state does not exist
+                                ctx.count("prestate_not_representable")
+                                known = "new"
+                            finally:
+                                session.close()
                         before = snapshot(root)
                         qr.handle_store(ev, store, db_path, {}, logger)
                     else:
@@ -142,7 +156,7 @@ def run(ctx: Ctx) -> int:
                     os.chdir(cwd)
                 after = snapshot(root)
                 touched = [p for p in after if before.get(p) != after[p]]
-                obs.append({"app": app, "value": value.replace(root, "<ROOT>"), "tokens": toks, "field": field, "sop": sopk, "dir": NEST, "db": ["n1", "instances.sqlite"],
+                obs.append({"app": app, "value": value.replace(root, "<ROOT>"), "tokens": toks, "field": field, "sop": sopk, "known": known, "dir": NEST, "db": ["n1", "instances.sqlite"],
                             "touched": [p.split(os.sep) for p in touched], "exc": exc})
     finally:
         shutil.rmtree(base, ignore_errors=True)
@@ -152,11 +166,11 @@ def run(ctx: Ctx) -> int:
     for o in obs:
         v = verdicts[o["id"]][0]
         ctx.traces += 1
-        ctx.case((o["app"], o["field"], o["sop"], tuple(o["tokens"])), nontrivial=any(t in ("..", "/", "ABS", "bs", "sib") for t in o["tokens"]))
+        ctx.case((o["app"], o["field"], o["sop"], o["known"], tuple(o["tokens"])), nontrivial=any(t in ("..", "/", "ABS", "bs", "sib") for t in o["tokens"]))
         if v != "ok":
             how = "absolute" if "ABS" in o["tokens"] else "dotdot" if ".." in o["tokens"] and "/" in o["tokens"] else "separator" if "/" in o["tokens"] else "other"
-            ctx.violation({"clause": v, "app": o["app"], "how": how, "field": o["field"]},
-                          f"{v}: {o['app']} handle_store with {o['field']} {o['value']!r} ({o['sop']} SOP class): files created/modified {['/'.join(t) for t in o['touched']]} (storage directory {'/'.join(NEST)})", o)
+            ctx.violation({"clause": v, "app": o["app"], "how": how if o["known"] == "new" else "managed-elsewhere", "field": o["field"]},
+                          f"{v}: {o['app']} handle_store with {o['field']} {o['value']!r} ({o['sop']} SOP class, instance {o['known']} to the database): files created/modified {['/'.join(t) for t in o['touched']]} (storage directory {'/'.join(NEST)})", o)
     ctx.sample(obs[0])
     ctx.sample(obs[-1])
     ctx.assume("the handlers are called directly with an event whose dataset went through pynetdicom's encode/decode; scratch tree under /verif/.work with canary files",
